@@ -141,15 +141,24 @@ def linear_matrix_action(linear_map, n, **kwargs):
         kwargs["like"] = linear_map
 
     base_ring, dtype = utils.check_type(**kwargs)
-    map_matrix = utils.zeros((n*n, n*n), base_ring, dtype)
+    template = utils.zeros((n, n), base_ring, dtype)
+    map_matrix = None
 
     for i in range(n):
         for j in range(n):
-            bm = basis_matrix(i, j, n, like=map_matrix)
+            bm = basis_matrix(i, j, n, like=template)
 
             b_image = linear_map(bm)
 
-            map_matrix[:, i*n + j] = gln_lie_algebra_coords(
+            if map_matrix is None:
+                # linear_map may act by an array of matrices at once:
+                # allocate one map matrix per element of that array
+                map_matrix = utils.zeros(
+                    np.array(b_image).shape[:-2] + (n*n, n*n),
+                    base_ring, dtype
+                )
+
+            map_matrix[..., :, i*n + j] = gln_lie_algebra_coords(
                 b_image, autoconvert=False
             )
 
@@ -160,18 +169,26 @@ def sln_linear_action(linear_map, n, **kwargs):
         kwargs["like"] = linear_map
 
     base_ring, dtype = utils.check_type(**kwargs)
-    map_matrix = utils.zeros((n**2 - 1, n**2 - 1), base_ring, dtype)
+    template = utils.zeros((n, n), base_ring, dtype)
+    map_matrix = None
 
     for i in range(n):
         for j in range(n):
             if i == n - 1 and j == n - 1:
                 break
 
-            bm = sln_basis_matrix(i, j, n, like=map_matrix)
+            bm = sln_basis_matrix(i, j, n, like=template)
 
             b_image = linear_map(bm)
 
-            map_matrix[:, i*n + j] = sln_lie_algebra_coords(
+            if map_matrix is None:
+                # see linear_matrix_action: support arrays of matrices
+                map_matrix = utils.zeros(
+                    np.array(b_image).shape[:-2] + (n**2 - 1, n**2 - 1),
+                    base_ring, dtype
+                )
+
+            map_matrix[..., :, i*n + j] = sln_lie_algebra_coords(
                 b_image, autoconvert=False
             )
 
